@@ -22,6 +22,8 @@ def _uninterpreted(t) -> set:
 
 
 def check_term(chk, rule: str, inst: str, where: str, found: Any, accepted: List[Any], why: str = "", key=None) -> bool:
+    found = T.renorm(T.boolnorm(found))
+    accepted = [T.renorm(T.boolnorm(a)) for a in accepted]
     if T.has_opaque(found):
         return chk.ob(rule, inst, None, where, found=T.show(found)[:400], why="; ".join(T.opaque_reasons(found))[:300], key=key)
     ok = found in accepted
